@@ -277,70 +277,57 @@ fn cmd_child_check(args: &[String]) -> i32 {
         if runs == 0 {
             continue;
         }
-        // known findings do not stop the search: loop, skipping past each one
-        let mut offset_seed = seed;
-        let mut remaining = runs;
-        let mut rounds = 0;
-        loop {
-            rounds += 1;
-            let res = run_batch(&BatchSpec {
-                world,
-                target: &prop,
-                base_seed: offset_seed,
-                runs: remaining,
-                thorough,
-                threads: threads(),
-                inflight,
-                needs_fault_effect: b.needs_fault_effect,
-            });
-            if let Some((s, v)) = res.harness_errors.first() {
-                eprintln!("HARNESS ERROR in world {} run-seed {}: {} :: {}", b.world, s, v.check, v.detail);
-                return 2;
+        let known_fn = |w: &str, v: &Violation| match_known(&known, w, v).map(|k| k.id.clone());
+        let res = run_batch(&BatchSpec {
+            world,
+            target: &prop,
+            base_seed: seed,
+            runs,
+            thorough,
+            threads: threads(),
+            inflight,
+            needs_fault_effect: b.needs_fault_effect,
+            known: &known_fn,
+        });
+        if let Some((s, v)) = res.harness_errors.first() {
+            eprintln!("HARNESS ERROR in world {} run-seed {}: {} :: {}", b.world, s, v.check, v.detail);
+            return 2;
+        }
+        merge(&mut total, &res);
+        per_world.push(serde_json::json!({
+            "world": b.world, "runs": res.runs, "operations": res.ops, "invariant_evaluations": res.evals,
+            "wall_s": (res.wall_s * 1000.0).round() / 1000.0,
+            "distinct_event_logs": res.distinct_logs.len(),
+            "slowest_run_seed": res.slowest.0, "slowest_run_ms": res.slowest.1,
+        }));
+        // listed findings: report each once (with a minimised replay of its first occurrence) and carry on
+        for (id, (hits, _idx, run_seed, v)) in res.known_hits.iter() {
+            let plan = world.generate(*run_seed, &prop, thorough);
+            let (min, mv, mh, execs) = minimise(world, &plan, v, 1500);
+            let path = write_replay(world, &format!("{root}/replays"), &plan, &min, &mv, mh, execs);
+            let k = known.iter().find(|k| &k.id == id).unwrap();
+            println!("KNOWN-FINDING: property={} {} seen in {} run(s) of world {}; first: seed {} [{}] {} replay={} ({})", prop, id, hits, b.world, run_seed, mv.check, mv.detail, path, k.text);
+            let e = known_seen.entry(id.clone()).or_insert((path.clone(), 0));
+            e.1 += hits;
+        }
+        if let Some((idx, run_seed, v)) = res.violations.first().cloned() {
+            let plan = world.generate(run_seed, &prop, thorough);
+            if let Some(inf) = inflight {
+                // minimisation re-executes variants of this run: keep it visible to the supervisor
+                inf.publish(supervise::MAX_WORKERS - 1, b.world, run_seed);
             }
-            let first = res.violations.first().cloned();
-            merge(&mut total, &res);
-            per_world.push(serde_json::json!({
-                "world": b.world, "runs": res.runs, "operations": res.ops, "invariant_evaluations": res.evals,
-                "wall_s": (res.wall_s * 1000.0).round() / 1000.0,
-                "distinct_event_logs": res.distinct_logs.len(),
-                "slowest_run_seed": res.slowest.0, "slowest_run_ms": res.slowest.1,
-            }));
-            match first {
-                None => break,
-                Some((idx, run_seed, v)) => {
-                    let plan = world.generate(run_seed, &prop, thorough);
-                    if let Some(inf) = inflight {
-                        // minimisation re-executes variants of this run: keep it visible to the supervisor
-                        inf.publish(supervise::MAX_WORKERS - 1, b.world, run_seed);
-                    }
-                    let (min, mv, mh, execs) = minimise(world, &plan, &v, 4000);
-                    if let Some(inf) = inflight {
-                        inf.clear(supervise::MAX_WORKERS - 1);
-                    }
-                    let path = write_replay(world, &format!("{root}/replays"), &plan, &min, &mv, mh, execs);
-                    println!(
-                        "violation in world {} run #{idx} seed {run_seed}: [{}] {} (minimised {} -> {} ops in {execs} executions)",
-                        b.world, mv.check, mv.detail, plan.ops.len(), min.ops.len()
-                    );
-                    if let Some(k) = match_known(&known, b.world, &mv).or_else(|| match_known(&known, b.world, &v)) {
-                        println!("KNOWN-FINDING: property={} {} ({})", prop, k.id, k.text);
-                        let e = known_seen.entry(k.id.clone()).or_insert((path.clone(), 0));
-                        e.1 += 1;
-                        // continue with the runs after this one
-                        if idx + 1 >= remaining || rounds > 200 {
-                            break;
-                        }
-                        // re-base: remaining runs get fresh seeds derived from the same VERIF_SEED
-                        remaining -= idx + 1;
-                        offset_seed = rng::mix(offset_seed, 0x4b4e_4f57 + idx);
-                        continue;
-                    }
-                    println!("VIOLATION property={} replay={}", prop, path);
-                    violation_samples.push(serde_json::json!({"world": b.world, "run_seed": run_seed, "check": mv.check, "detail": mv.detail, "replay": path}));
-                    exit = 1;
-                    break;
-                }
+            let (min, mv, mh, execs) = minimise(world, &plan, &v, 4000);
+            if let Some(inf) = inflight {
+                inf.clear(supervise::MAX_WORKERS - 1);
             }
+            let path = write_replay(world, &format!("{root}/replays"), &plan, &min, &mv, mh, execs);
+            println!(
+                "violation in world {} run #{idx} seed {run_seed}: [{}] {} (minimised {} -> {} ops in {execs} executions)",
+                b.world, mv.check, mv.detail, plan.ops.len(), min.ops.len()
+            );
+            println!("VIOLATION property={} replay={}", prop, path);
+            violation_samples.push(serde_json::json!({"world": b.world, "run_seed": run_seed, "check": mv.check, "detail": mv.detail, "replay": path}));
+            exit = 1;
         }
         if exit != 0 {
             break;
